@@ -81,14 +81,23 @@ def run(ctx, report: Report) -> None:
     from ..interp import Obj, Raised, call_function
     from ..tables import NSKey, el_obj, matcher_obj
     try:
-        spl = [call_function(ctx, 'css_match._DocumentNav.split_namespace', [Obj(_name='el'), k_], {}, {}, None)
+        spl = [call_function(ctx, 'css_match._DocumentNav.split_namespace', [el_obj('e', namespace='ELEMENT-NS', prefix='ep'), k_], {}, {}, None)
                for k_ in (Obj(_name='NamespacedAttribute', namespace='NS', name='local'), 'plain')]
         spl = [tuple(x) if isinstance(x, (tuple, list)) else x for x in spl]
     except (Raised, miniev.Unsupported) as e:
         raise AnalysisError(f'split_namespace: outside the evaluable fragment: {e}')
-    if spl != [('NS', 'local'), (None, None)]:
-        raise AnalysisError(f'split_namespace yields {spl} for (a namespaced key, a plain key); the attribute model of this rule '
-                            'assumes (namespace, local name) and (None, None)')
+    premise_ok = spl == [('NS', 'local'), (None, None)]
+    if not premise_ok:
+        if isinstance(spl[1], tuple) and len(spl[1]) == 2 and spl[1][0] is not None:
+            # an un-prefixed attribute has no namespace, whatever element carries it
+            report.rule('C12-R0', 'split_namespace: (namespace, local name) of a namespaced key, (None, None) of a plain key').violation(
+                'css_match._DocumentNav.split_namespace plain key', mmod.where(sn),
+                f'split_namespace gives {spl[1]} for an un-prefixed attribute key on an element in the namespace ELEMENT-NS: an attribute '
+                f'without a prefix has NO namespace (it does not inherit the element\'s or the default namespace), so `[ns|a]` would match '
+                f'plain attributes of elements in that namespace')
+        else:
+            raise AnalysisError(f'split_namespace yields {spl} for (a namespaced key, a plain key); the attribute model of this rule '
+                                'assumes (namespace, local name) and (None, None)')
     keys = list(ATTR_KINDS)
     elements = [[]] + [[k] for k in keys] + [list(p) for p in itertools.permutations(keys, 2)]
     first_bad = None
@@ -253,6 +262,11 @@ def run(ctx, report: Report) -> None:
     r6 = report.rule('C12-R6', 'the caller\'s prefix map is in force for every list except inside HTML-only definitions, and is restored', floor=16)
     from .sem import list_context_table
     list_context_table(ctx, r6)
+
+    # ---- R7 (the whole pipeline by interpretation, bounded) --------------------------------------------------------------
+    r7 = report.rule('C12-R7', 'namespace selectors on a tree of mixed namespaces under two prefix maps (whole pipeline; bounded)', floor=10)
+    from .e2ematch import namespace_table
+    namespace_table(ctx, r7)
 
 
 
